@@ -99,7 +99,9 @@ class extract_visitor(NodeVisitor):
             eend = get_expr_end(node)
         name = node.target
         if isinstance(name, Attribute):
-            self.top.add_attr_assign(self.flow.scope, name, node.value)  # type: ignore[arg-type]  # TODO
+            if node.value:
+                # a bare annotation (self.x: int) assigns nothing
+                self.top.add_attr_assign(self.flow.scope, name, node.value)
         elif isinstance(name, UNSUPPORTED_ASSIGMENTS):
             pass
         elif node.value:
@@ -130,11 +132,20 @@ class extract_visitor(NodeVisitor):
         self.flow = self.make_flow('join', [body, orelse])
         self.flow.scope.flow = self.flow
 
+    def add_attr_targets(self, target):
+        # type: (ast.AST) -> None
+        # for self.item in ... / with ... as self.handle: attribute
+        # assignments of unknown value
+        for nn, _idx in get_indexes_for_target(target, [], []):
+            if isinstance(nn, Attribute):
+                self.top.add_attr_assign(self.flow.scope, nn, None)  # type: ignore[arg-type]
+
     def visit_For(self, node):
         # type: (ast.For | ast.AsyncFor) -> None
         self.visit(node.iter)
         cur = self.flow
 
+        self.add_attr_targets(node.target)
         body_start = self.make_flow('for', [cur])
         for nn, _idx in get_indexes_for_target(node.target, [], []):
             if not isinstance(nn, AstName):
@@ -339,6 +350,7 @@ class extract_visitor(NodeVisitor):
             # the context expression is evaluated before its target is bound
             self.visit(it.context_expr)
             if it.optional_vars:
+                self.add_attr_targets(it.optional_vars)
                 for nn, _idx in get_indexes_for_target(it.optional_vars, [], []):
                     if not isinstance(nn, AstName):
                         continue
